@@ -1,7 +1,434 @@
-//! C29 — not implemented yet.
-use crate::Ctx;
+//! C29 — vector and hybrid search return correctly scored, filtered hits (`--features vectors`).
+//! Engine: inputmc vectors — small vector worlds (dim 1-3, Cosine / L2, missing vectors, zero
+//! vector, deletions, every segment layout) x vector-only / hybrid / multi-clause requests, against
+//! a brute-force similarity oracle. Every segment holds far fewer vectors than the HNSW neighbour
+//! limit (m = 16), so hits must be the exact nearest neighbours.
 
-pub fn run(_ctx: &Ctx) -> i32 {
-  eprintln!("C29: check not implemented");
+#[cfg(not(feature = "vectors"))]
+pub fn run(_ctx: &crate::Ctx) -> i32 {
+  eprintln!("C29 needs the `vectors` feature build (./check C29 builds it)");
   2
+}
+
+#[cfg(feature = "vectors")]
+pub use imp::run;
+
+#[cfg(feature = "vectors")]
+mod imp {
+  use std::collections::HashSet;
+  use std::sync::atomic::{AtomicU64, Ordering};
+
+  use parking_lot::Mutex;
+  use rayon::prelude::*;
+  use serde_json::{json, Value};
+
+  use vcore::ev::Reporter;
+  use vcore::inp::*;
+  use vcore::world::*;
+
+  use crate::Ctx;
+
+  fn schema_json(dim: usize, metric: &str) -> Value {
+    json!({"doc_id_field": "_id",
+      "text_fields": [{"name": "body", "analyzer": "default", "stored": true, "indexed": true}],
+      "keyword_fields": [{"name": "kw", "stored": true, "indexed": true, "fast": true}],
+      "numeric_fields": [],
+      "vector_fields": [{"name": "v", "dim": dim, "metric": metric}]})
+  }
+
+  /// vectors per dimension (None = document without a vector)
+  fn vec_alphabet(dim: usize) -> Vec<Option<Vec<f32>>> {
+    match dim {
+      1 => vec![Some(vec![1.0]), Some(vec![-1.0]), Some(vec![0.0]), None, Some(vec![0.5])],
+      2 => vec![Some(vec![1.0, 0.0]), Some(vec![0.0, 1.0]), Some(vec![1.0, 1.0]), Some(vec![-1.0, 0.0]), None, Some(vec![0.0, 0.0])],
+      _ => vec![Some(vec![1.0, 0.0, 0.0]), Some(vec![0.0, 1.0, 1.0]), Some(vec![1.0, 1.0, 1.0]), Some(vec![-1.0, 0.0, 1.0]), None, Some(vec![0.0, 0.0, 0.0])],
+    }
+  }
+
+  fn shapes(dim: usize) -> Vec<Value> {
+    let bodies = ["a", "a b", "a", "b", "a", "a b"];
+    let kws = ["x", "y", "x", "y", "x", "y"];
+    vec_alphabet(dim)
+      .into_iter()
+      .enumerate()
+      .map(|(i, v)| {
+        let mut d = json!({"body": bodies[i % 6], "kw": kws[i % 6]});
+        if let Some(v) = v {
+          d["v"] = json!(v);
+        }
+        d
+      })
+      .collect()
+  }
+
+  fn queries(dim: usize) -> Vec<Vec<f32>> {
+    match dim {
+      1 => vec![vec![1.0], vec![-2.0]],
+      2 => vec![vec![1.0, 0.0], vec![1.0, 1.0], vec![0.0, -1.0]],
+      _ => vec![vec![1.0, 0.0, 0.0], vec![1.0, 1.0, 1.0]],
+    }
+  }
+
+  fn sim(metric: &str, q: &[f32], d: &[f32]) -> f32 {
+    if metric == "Cosine" {
+      let (mut dot, mut na, mut nb) = (0.0f64, 0.0f64, 0.0f64);
+      for (x, y) in q.iter().zip(d) {
+        dot += (*x as f64) * (*y as f64);
+        na += (*x as f64) * (*x as f64);
+        nb += (*y as f64) * (*y as f64);
+      }
+      if na == 0.0 || nb == 0.0 {
+        0.0
+      } else {
+        (dot / (na.sqrt() * nb.sqrt())) as f32
+      }
+    } else {
+      let mut s = 0.0f64;
+      for (x, y) in q.iter().zip(d) {
+        let dd = (*x as f64) - (*y as f64);
+        s += dd * dd;
+      }
+      -(s.sqrt() as f32)
+    }
+  }
+
+  struct Doc<'a> {
+    id: &'a str,
+    vec: Option<Vec<f32>>,
+    kw: &'a str,
+    has_a: bool,
+  }
+
+  fn live<'a>(w: &'a World) -> Vec<Doc<'a>> {
+    w.live_docs()
+      .into_iter()
+      .map(|d| Doc {
+        id: d["_id"].as_str().unwrap(),
+        vec: d.get("v").and_then(|v| v.as_array()).map(|a| a.iter().map(|x| x.as_f64().unwrap() as f32).collect()),
+        kw: d["kw"].as_str().unwrap_or(""),
+        has_a: d["body"].as_str().unwrap_or("").split(' ').any(|t| t == "a"),
+      })
+      .collect()
+  }
+
+  /// ids grouped into tie classes by score (descending)
+  fn classes(mut v: Vec<(String, f32)>) -> Vec<(f32, Vec<String>)> {
+    v.sort_by(|a, b| b.1.partial_cmp(&a.1).unwrap_or(std::cmp::Ordering::Equal));
+    let mut out: Vec<(f32, Vec<String>)> = Vec::new();
+    for (id, s) in v {
+      match out.last_mut() {
+        Some((ls, ids)) if approx(*ls, s, 1e-5) || (*ls - s).abs() < 1e-6 => ids.push(id),
+        _ => out.push((s, vec![id])),
+      }
+    }
+    for c in out.iter_mut() {
+      c.1.sort();
+    }
+    out
+  }
+
+  /// Check that `hits` (id, score, vector_score) is a correct top-`must_prefix` ranking of `expected`.
+  fn judge_ranking(hits: &[(String, f32, Option<f32>)], expected: &[(String, f32)], vexp: &dyn Fn(&str) -> Option<f32>, must_prefix: usize, all_must_be_eligible: bool) -> Result<(), String> {
+    let elig: std::collections::HashMap<&str, f32> = expected.iter().map(|(i, s)| (i.as_str(), *s)).collect();
+    let mut seen = HashSet::new();
+    for (id, score, vs) in hits {
+      if !seen.insert(id.clone()) {
+        return Err(format!("document {id} returned twice"));
+      }
+      match elig.get(id.as_str()) {
+        None => {
+          if all_must_be_eligible {
+            return Err(format!("document {id} is returned but is not eligible (deleted, no vector in the field, or rejected by a filter)"));
+          }
+        }
+        Some(es) => {
+          if !approx(*score, *es, 1e-4) && (*score - *es).abs() > 1e-5 {
+            return Err(format!("document {id} has score {score} but the exact value is {es}"));
+          }
+          if let Some(want) = vexp(id) {
+            match vs {
+              Some(v) if approx(*v, want, 1e-4) || (*v - want).abs() < 1e-5 => {}
+              other => return Err(format!("document {id} has vector_score {other:?} but the exact similarity x boost is {want}")),
+            }
+          }
+        }
+      }
+    }
+    // order: non-increasing score
+    for w in hits.windows(2) {
+      if w[1].1 > w[0].1 + 1e-5 {
+        return Err(format!("hits are not ordered by score: {} ({}) before {} ({})", w[0].0, w[0].1, w[1].0, w[1].1));
+      }
+    }
+    // exact nearest neighbours: the first `must_prefix` hits are the exact top (tie classes as sets)
+    let cls = classes(expected.to_vec());
+    let need = must_prefix.min(expected.len());
+    if hits.len() < need {
+      return Err(format!("only {} hits returned but {need} eligible documents must be returned", hits.len()));
+    }
+    let mut pos = 0usize;
+    for (_, ids) in cls {
+      if pos >= need {
+        break;
+      }
+      let take = ids.len().min(need - pos);
+      let got: HashSet<&str> = hits[pos..pos + take].iter().map(|h| h.0.as_str()).collect();
+      if ids.len() == take {
+        let want: HashSet<&str> = ids.iter().map(|s| s.as_str()).collect();
+        if got != want {
+          return Err(format!("ranks {pos}..{} hold {:?} but the exact nearest neighbours there are {:?}", pos + take, got, want));
+        }
+      } else if !got.iter().all(|g| ids.iter().any(|i| i == g)) {
+        return Err(format!("ranks {pos}..{} hold {:?} which are not all among the tied nearest neighbours {:?}", pos + take, got, ids));
+      }
+      pos += take;
+    }
+    Ok(())
+  }
+
+  fn hits_of(r: &searchlite_core::api::SearchResult) -> Vec<(String, f32, Option<f32>)> {
+    r.hits.iter().map(|h| (h.doc_id.clone(), h.score, h.vector_score)).collect()
+  }
+
+  fn check_world(w: &World, dim: usize, metric: &str, rep: &Reporter, evals: &AtomicU64, nontriv: &AtomicU64, outcomes: &Mutex<HashSet<String>>) {
+    let idx = w.build();
+    let reader = match idx.reader() {
+      Ok(r) => r,
+      Err(e) => {
+        rep.fail(None, &format!("{}: reader failed: {e:#}", w.describe()), json!({"world": w.to_json(), "dim": dim, "metric": metric}));
+        return;
+      }
+    };
+    let docs = live(w);
+    let n = w.docs.len();
+    let fail = |what: String, request: &Value| {
+      rep.fail(None, &format!("{} metric={metric} request={request}: {what}", w.describe()), json!({"engine": "inputmc-vectors", "world": w.to_json(), "dim": dim, "metric": metric, "request": request}));
+    };
+    for q in queries(dim) {
+      // ---- vector-only ----------------------------------------------------------------------
+      for (filter, vfilter, boost) in [(false, false, None), (true, false, None), (false, true, None), (false, false, Some(2.0f32))] {
+        for (k, limit) in [(n.max(1), n.max(1)), (1, n.max(1)), (2, 1), (n.max(1), 1)] {
+          let mut node = json!({"type": "vector", "field": "v", "vector": q, "k": k, "alpha": 0.0});
+          if let Some(b) = boost {
+            node["boost"] = json!(b);
+          }
+          let mut r = json!({"query": node, "limit": limit, "execution": "wand"});
+          if filter {
+            r["filter"] = json!({"KeywordEq": {"field": "kw", "value": "x"}});
+          }
+          if vfilter {
+            r["vector_filter"] = json!({"KeywordEq": {"field": "kw", "value": "x"}});
+          }
+          evals.fetch_add(1, Ordering::Relaxed);
+          let b = boost.unwrap_or(1.0);
+          let expected: Vec<(String, f32)> = docs
+            .iter()
+            .filter(|d| d.vec.is_some() && (!(filter || vfilter) || d.kw == "x"))
+            .map(|d| (d.id.to_string(), sim(metric, &q, d.vec.as_ref().unwrap()) * b))
+            .collect();
+          match search_caught(&reader, &req(r.clone())) {
+            Err(e) => fail(format!("vector-only search failed: {e}"), &r),
+            Ok(res) => {
+              let hits = hits_of(&res);
+              if hits.len() > limit {
+                fail(format!("{} hits for limit {limit}", hits.len()), &r);
+                continue;
+              }
+              let vexp = |id: &str| expected.iter().find(|e| e.0 == id).map(|e| e.1);
+              if let Err(what) = judge_ranking(&hits, &expected, &vexp, k.min(limit), true) {
+                fail(what, &r);
+              } else {
+                if !expected.is_empty() && expected.len() < docs.len() {
+                  nontriv.fetch_add(1, Ordering::Relaxed);
+                }
+                outcomes.lock().insert(format!("vo:{}:{}", hits.len(), expected.len()));
+              }
+            }
+          }
+        }
+      }
+      // ---- hybrid: text query "a" + vector_query ---------------------------------------------
+      let base = json!({"query": "a", "limit": n.max(1), "execution": "bm25"});
+      let bm: std::collections::HashMap<String, f32> = match search_caught(&reader, &req(base.clone())) {
+        Ok(r) => r.hits.iter().map(|h| (h.doc_id.clone(), h.score)).collect(),
+        Err(e) => {
+          fail(format!("text search failed: {e}"), &base);
+          continue;
+        }
+      };
+      for alpha in [0.0f32, 0.5, 1.0] {
+        for legacy in [false, true] {
+          let mut r = base.clone();
+          r["vector_query"] = if legacy { json!(["v", q, alpha]) } else { json!({"field": "v", "vector": q, "alpha": alpha, "k": n.max(1)}) };
+          evals.fetch_add(1, Ordering::Relaxed);
+          match search_caught(&reader, &req(r.clone())) {
+            Err(e) => fail(format!("hybrid search failed: {e}"), &r),
+            Ok(res) => {
+              let hits = hits_of(&res);
+              if alpha >= 1.0 {
+                // BM25 only: same ids as the text query
+                let got: HashSet<&str> = hits.iter().map(|h| h.0.as_str()).collect();
+                let want: HashSet<&str> = bm.keys().map(|s| s.as_str()).collect();
+                if got != want {
+                  fail(format!("alpha=1 (BM25 only) returns {got:?} but the text query alone returns {want:?}"), &r);
+                }
+                continue;
+              }
+              // documents that match the text query, are live and have a vector
+              let expected: Vec<(String, f32)> = docs
+                .iter()
+                .filter(|d| d.has_a && d.vec.is_some() && bm.contains_key(d.id))
+                .map(|d| {
+                  let vs = sim(metric, &q, d.vec.as_ref().unwrap());
+                  (d.id.to_string(), alpha * bm[d.id] + (1.0 - alpha) * vs)
+                })
+                .collect();
+              let vexp = |id: &str| docs.iter().find(|d| d.id == id).and_then(|d| d.vec.as_ref().map(|v| sim(metric, &q, v)));
+              // every hit must match the text query; hits with a vector must carry the exact blend
+              for (id, _, _) in &hits {
+                if !bm.contains_key(id) {
+                  fail(format!("hybrid hit {id} does not match the text query"), &r);
+                }
+              }
+              let with_vec: Vec<(String, f32, Option<f32>)> = hits.iter().filter(|h| expected.iter().any(|e| e.0 == h.0)).cloned().collect();
+              if let Err(what) = judge_ranking(&with_vec, &expected, &vexp, expected.len(), false) {
+                fail(what, &r);
+              } else {
+                outcomes.lock().insert(format!("hy:{alpha}:{}", hits.len()));
+              }
+            }
+          }
+        }
+      }
+      // ---- two clauses: only membership ------------------------------------------------------
+      if dim >= 2 {
+        let q2: Vec<f32> = q.iter().rev().cloned().collect();
+        let r = json!({"query": {"type": "bool", "should": [
+            {"type": "vector", "field": "v", "vector": q, "alpha": 0.0, "k": n.max(1)},
+            {"type": "vector", "field": "v", "vector": q2, "alpha": 0.0, "k": n.max(1)}]},
+          "limit": n.max(1), "candidate_size": 100});
+        evals.fetch_add(1, Ordering::Relaxed);
+        match search_caught(&reader, &req(r.clone())) {
+          Err(e) => fail(format!("two-clause vector search failed: {e}"), &r),
+          Ok(res) => {
+            for h in &res.hits {
+              if !docs.iter().any(|d| d.id == h.doc_id && d.vec.is_some()) {
+                fail(format!("two-clause hit {} is deleted or has no vector", h.doc_id), &r);
+              }
+            }
+          }
+        }
+      }
+    }
+    // ---- wrong dimension is rejected ----------------------------------------------------------
+    let bad: Vec<f32> = vec![1.0; dim + 1];
+    let r = json!({"query": {"type": "vector", "field": "v", "vector": bad, "k": 2, "alpha": 0.0}, "limit": 2});
+    evals.fetch_add(1, Ordering::Relaxed);
+    if let Ok(res) = search_caught(&reader, &req(r.clone())) {
+      fail(format!("query vector of dimension {} accepted by a field of dimension {dim} ({} hits)", dim + 1, res.hits.len()), &r);
+    }
+  }
+
+  pub fn run(ctx: &Ctx) -> i32 {
+    let mut rep = Reporter::new("C29", ctx.tier, "exploration");
+    let quick = ctx.tier.is_quick();
+    let evals = AtomicU64::new(0);
+    let nontriv = AtomicU64::new(0);
+    let outcomes: Mutex<HashSet<String>> = Mutex::new(HashSet::new());
+    if let Some(path) = &ctx.replay {
+      rep.set_replaying(true);
+      let v: Value = serde_json::from_slice(&std::fs::read(path).expect("replay file")).expect("json");
+      let w = World::from_json(&v["case"]["world"]);
+      let dim = v["case"]["dim"].as_u64().unwrap_or(2) as usize;
+      let metric = v["case"]["metric"].as_str().unwrap_or("Cosine").to_string();
+      check_world(&w, dim, &metric, &rep, &evals, &nontriv, &outcomes);
+      let a = rep.violations();
+      check_world(&w, dim, &metric, &rep, &evals, &nontriv, &outcomes);
+      if rep.violations() != 2 * a {
+        vcore::ev::machinery_failure("NONDETERMINISM on replay");
+      }
+      if a > 0 {
+        println!("VIOLATION property=C29 replay={path}");
+        return 1;
+      }
+      println!("replay: no violation");
+      return 0;
+    }
+    // wrong-dimension document is rejected when queued or at the latest when committed
+    {
+      let sch = schema(schema_json(2, "Cosine"));
+      let idx = mem_index(&sch);
+      let mut wr = idx.writer().unwrap();
+      let ok_add = wr.add_document(&doc(&json!({"_id": "A", "body": "a", "kw": "x", "v": [1.0, 0.0, 0.0]}))).is_ok();
+      let ok_commit = ok_add && wr.commit().is_ok();
+      if ok_commit {
+        rep.fail(None, "a document whose vector has 3 components was added and committed into a field of dimension 2", json!({"engine": "inputmc-vectors", "kind": "wrong-dimension-document"}));
+      }
+    }
+    let dims: Vec<usize> = if quick { vec![2] } else { vec![1, 2, 3] };
+    let max_docs = if quick { 3 } else { 4 };
+    let mut worlds: Vec<(World, usize, String)> = Vec::new();
+    for &dim in &dims {
+      for metric in ["Cosine", "L2"] {
+        let sh = shapes(dim);
+        for n in 1..=max_docs {
+          let seqs = if n <= 3 { sequences(&(0..sh.len()).collect::<Vec<_>>(), n, n) } else { multisets(sh.len(), n) };
+          for seq in seqs {
+            let docs: Vec<Value> = seq
+              .iter()
+              .enumerate()
+              .map(|(i, s)| {
+                let mut d = sh[*s].clone();
+                d["_id"] = json!(id_of(i));
+                d
+              })
+              .collect();
+            for lay in compositions(n) {
+              if quick && n == 3 && lay.len() == 2 && lay[0] == 1 {
+                continue;
+              }
+              let base = World::new(&format!("vec{dim}-{metric}"), schema_json(dim, metric), docs.clone()).with_layout(lay.clone());
+              worlds.push((base.clone(), dim, metric.to_string()));
+              if n >= 2 && lay.len() <= 2 {
+                worlds.push((base.with_deleted(&["B"]), dim, metric.to_string()));
+              }
+            }
+          }
+        }
+      }
+    }
+    let budget = if quick { 35.0 } else { 1200.0 };
+    let timed_out = std::sync::atomic::AtomicBool::new(false);
+    worlds.par_iter().for_each(|(w, dim, metric)| {
+      if rep.elapsed_s() > budget {
+        timed_out.store(true, Ordering::Relaxed);
+        return;
+      }
+      check_world(w, *dim, metric, &rep, &evals, &nontriv, &outcomes);
+    });
+    rep.add_evals(evals.load(Ordering::Relaxed));
+    rep.sample(json!({"world": worlds[worlds.len() / 2].0.describe(), "requests": "vector-only (k, limit, filter, vector_filter, boost), hybrid (alpha 0 / 0.5 / 1, object and legacy tuple), two clauses, wrong dimension"}));
+    let n_out = outcomes.lock().len();
+    if n_out < 2 && rep.violations() == 0 {
+      vcore::ev::machinery_failure("C29 vacuous");
+    }
+    let to = timed_out.load(Ordering::Relaxed);
+    let cov = vcore::cov! {
+      "distinct_nontrivial" => nontriv.load(Ordering::Relaxed),
+      "rule" => "worlds = vector field of dimension d x {Cosine, L2} x every sequence of <= 3 (multisets of 4 in thorough) document shapes (axis / diagonal / negative / zero vectors, one shape without a vector, two keyword values, text a / a b / b) x every segment layout x {no deletion, delete B}; requests per world: vector-only with (k, limit) in {(n,n),(1,n),(2,1),(n,1)} x {plain, filter, vector_filter, boost 2} x 2-3 query vectors; hybrid text query + vector_query (object and legacy tuple) with alpha 0 / 0.5 / 1; two-clause should; wrong-dimension query. Oracle: brute-force exact similarity (cosine of the raw vectors, negative Euclidean distance) x boost; eligibility = live, has a vector, passes filter / vector_filter; score = alpha*bm25 + (1-alpha)*vector_score with bm25 from the text query alone; the first min(k, limit) hits are the exact nearest neighbours (tie classes as sets). A vector-only case is non-trivial when the eligible set is a non-empty proper subset of the live documents.",
+      "worlds" => worlds.len(),
+      "dims" => dims,
+      "cap_hit" => if to { Some(format!("wall budget {budget}s")) } else { None },
+      "exhaustive" => !to,
+      "distinct_observed_outcomes" => n_out,
+    };
+    rep.finish(
+      cov,
+      vec![
+        "every segment holds at most 4 vectors (< HNSW m = 16), so exact nearest neighbours are demanded".into(),
+        "multi-clause queries are only checked for eligibility of their hits (the docs do not pin vector_score / blend for several clauses)".into(),
+        "hybrid hits without a vector are not judged (docs do not say whether they are returned)".into(),
+      ],
+    )
+  }
 }
